@@ -23,3 +23,8 @@ ASSUME.update({
          "net/http's multipart parser and chunked decoding are exercised, not modelled; the consume-then-commit shape of each backend's ReceiveBlob is validated by the correspondence",
          "16 MiB boundary cases run on memory, localdisk and diskpacked only"],
 })
+ASSUME.update({
+ "C15": ["the rolling checksum is an arbitrary oracle in the theorems; the harness computes its events with go4.org/rollsum, the package the writer uses",
+         "JSON encoding/decoding of schema blobs and blob fetching are exercised, not modelled (part trees carry resolved contents)",
+         "maxStaticSetMembers >= 3 (SetStaticSetMembers does not terminate for 2 and divides by zero for 1; the real value is 10000)"],
+})
